@@ -7,7 +7,7 @@ inline("uxarray.core.dataarray.UxDataArray.uxgrid", "uxarray.core.dataarray.UxDa
 _U = "uxarray.core.dataarray.UxDataArray."
 
 # Grid.copy: assumed here (its independence is the subject of C19)
-contract("uxarray.grid.grid.Grid.copy", trusted=True, props=["C10", "C19"],
+contract("uxarray.grid.grid.Grid.copy", variant="caller_view", trusted=True, props=["C10", "C19"],
          params={"self": "obj('Grid')"}, returns="opaque",
          ensures=["same(result, uf('grid_copy', self))", "not same(result, self)"])
 
@@ -24,6 +24,7 @@ contract(_U + "_copy", props=["C10"],
              "implies(isnone(kwargs['deep']) or not kwargs['deep'], same(result.uxgrid, self.uxgrid))",
              "implies(not isnone(kwargs['deep']) and kwargs['deep'], same(result.uxgrid, uf('grid_copy', self.uxgrid)) and "
              "not same(result.uxgrid, self.uxgrid))"],
+         options={"callee_variants": {"uxarray.grid.grid.Grid.copy": "caller_view"}},
          raises=[("Exception", "False", "only_if")])
 
 contract(_U + "_replace", props=["C10"],
@@ -62,3 +63,13 @@ for _d, _k in ((("time", "n_face"), "face"), (("n_face",), "face"), (("n_node",)
                  f"{{'n_{_k}': entry(sliced_grid._ds, 'subgrid_{_k}_indices')}}))"] if _k else []),
              options={"abstract": True, "summaries": [_ISEL]},
              raises=[("ValueError", str(_k is None), "iff")])
+
+
+# Grid.copy itself (C10, C19): a NEW Grid built from a DEEP copy of the dataset, same format tag and dimension mapping
+contract("uxarray.grid.grid.Grid.copy", props=["C10", "C19"],
+         params={"self": "obj('Grid')"}, returns="opaque",
+         ensures=["not same(result, self)",
+                  "constructed(result, 'Grid', dscopy(self._ds, deep=True), source_grid_spec=self.source_grid_spec, "
+                  "source_dims_dict=self._source_dims_dict)"],
+         options={"abstract": True},
+         raises=[("Exception", "False", "only_if")])
